@@ -60,14 +60,27 @@ func optionOf(p ref.PMCE, order int) httphead.Option {
 	case p.ClientMaxWindowBits != 0:
 		ps = append(ps, kv{"client_max_window_bits", strconv.Itoa(p.ClientMaxWindowBits)})
 	}
-	// rotate the parameter order
+	// rotate the parameter order; and the in-memory form of the option: a value-less parameter as a nil value (what
+	// the header scanner hands over), as an empty non-nil slice (what Option.Clone / Copy / NewOption(..., "") make
+	// of it), the whole option cloned (a Negotiate wrapper keeping its argument), or re-parsed from its wire text
+	repr := (order / 5) % 4
 	for i := range ps {
 		x := ps[(i+order)%len(ps)]
 		var v []byte
 		if x.v != "" {
 			v = []byte(x.v)
+		} else if repr == 1 {
+			v = []byte{}
 		}
 		o.Parameters.Set([]byte(x.k), v)
+	}
+	switch repr {
+	case 2:
+		o = o.Clone()
+	case 3:
+		if opts, ok := httphead.ParseOptions([]byte(optionText(o)), nil); ok && len(opts) == 1 {
+			o = opts[0]
+		}
 	}
 	return o
 }
@@ -462,6 +475,12 @@ func subInverse() mon.Sub {
 			var q wsflate.Parameters
 			if err := q.Parse(opt); err != nil || q != p {
 				c.Fail("inverse/parse-of-option", fmt.Sprintf("Parse(Option(%+v)) = %+v, %v", p, q, err), nil)
+				return
+			}
+			// ... also when the option went through a copy on its way (Clone keeps names and values, in its own memory)
+			var q2 wsflate.Parameters
+			if err := q2.Parse(opt.Clone()); err != nil || q2 != p {
+				c.Fail("inverse/parse-of-cloned-option", fmt.Sprintf("Parse(Option(%+v).Clone()) = %+v, %v", p, q2, err), nil)
 				return
 			}
 			// and the other way round, through the wire text
